@@ -34,7 +34,7 @@ func init() {
 		"DESIGN.md §5 C01, §4.3",
 		[]string{"fidelity of deepClone (a YAML round trip) on exotic strings", "type-sensitive == across formats (C04)", "chains of 3-4 layers beyond the induction (repeated application of the same entry)"},
 		[]string{"Trees are acyclic and layer sources are private copies (rules C02.indep / C08.acyclic)."},
-		ruleC01Kind, ruleC01Map, ruleC01List, ruleC01Match, ruleDeepClone, ruleMarkerHelpers("C01.marker"))
+		ruleC01Kind, ruleC01Map, ruleC01List, ruleC01Match, ruleDeepClone, ruleMarkerHelpers("C01.marker"), ruleMergeSourcesPrivate("C01.indep"))
 
 	mk("C02", "Stream layering targets the right documents and treats each independently",
 		"path-effect summaries of MergeDocument (target selection table), ownership analysis of every call into the merge family (sources must be private deep copies), census of the writers of Parser.docs / Document.Parents",
@@ -58,7 +58,7 @@ func init() {
 		"DESIGN.md §5 C04, §4.7",
 		[]string{"that the three libraries agree on the logical content of equivalent documents (anchors, dotted keys, dates)", "TOML date/time types"},
 		[]string{"go-toml/v2 v2.2.3 decodes integers into int64 and floats into float64 (checked against go.mod)."},
-		ruleC04Census, ruleC04Canon, ruleC04Float, ruleC04Normalised("C04.normalised"), ruleC04Ext)
+		ruleC04Census, ruleC04Canon, ruleC04Float, ruleC04Normalised("C04.normalised"), ruleC04Ext, ruleC05All)
 
 	mk("C05", "Output round-trips in every format: what bkl writes reads back unchanged",
 		"interprocedural may-be-nil analysis of every map/slice boxed into a tree value (empty containers stay containers, never a typed nil that prints as null); census of the format table (writer and reader reach the same codec package), separator literals matched against the reader's splitter pattern, path-effect summaries of every stream encoder/decoder (no document lost), format-choice flow in cmd/bkl.main and the Output* methods",
